@@ -823,6 +823,47 @@ class Gen:
             res = ev['res'][0] if ev.get('res') else r
             self.probe_closed(res, 'probe_cut_closed')
 
+    def g_iter_twice(self):
+        """Iterate (or take every index), change the formatting in place over a range whose ends are EXISTING change
+        points (no new point appears), iterate again."""
+        r = self.pick('S')
+        if not r or not (1 <= self.length(r) <= 6) or not self.room(2 * self.length(r) + 2):
+            return
+        n = self.length(r)
+        how = self.rng.choice(['iter', 'iter', 'index'])
+        def walk():
+            if how == 'iter':
+                self.do({'op': 'iter', 'r': r})
+            else:
+                for i in range(n):
+                    self.do({'op': 'index', 'r': r, 'i': i if self.rng.random() < 0.7 else i - n})
+        walk()
+        cps_ = sorted(set([0, n] + self.change_points(r)))
+        a_, b_ = sorted(self.rng.sample(cps_, 2)) if len(cps_) >= 2 else (0, n)
+        if self.rng.random() < 0.6:
+            forms, S = self.settings()
+            self.do({'op': 'apply', 'r': r, 'sets': forms, 'S': S, 'start': a_, 'end': self.rng.choice([b_, None]) if b_ == n else b_,
+                     'top': self.rng.random() < 0.7})
+        else:
+            self.do({'op': 'remove', 'r': r, 'all': True, 'start': a_, 'end': b_})
+        walk()
+
+    def g_astr_of_source(self):
+        """An AnsiStr made from an AnsiString; the source is then changed in place; the AnsiStr must still render, report
+        and compare as before (payload, to_str, settings)."""
+        r = self.pick('S')
+        if not r or not self.room(6):
+            return
+        a = self.do({'op': 'new', 'cls': 'A', 'src': r, 'sets': [], 'S': []})
+        if a['out'] != 'ok' or not a['res']:
+            return
+        a = a['res'][0]
+        self._with_subject(r, self.rng.choice(['apply', 'apply', 'remove', 'iadd', 'assign_str', 'pad', 'clear', 'case']), True)
+        for how in self.rng.sample(['str', 'format', 'fstr', 'to_str'], 2):
+            self.do({'op': 'render', 'r': a, 'how': how})
+        if self.length(a):
+            self.do({'op': 'ansi_settings_at', 'r': a, 'i': self.rng.randrange(self.length(a))})
+
     def g_many_end(self):
         """Three to six settings of different groups end at one index inside the text while another continues."""
         r = self.pick('S')
@@ -1237,7 +1278,7 @@ class Gen:
 
 
 W_BASE = {'new': 1.0, 'new_from': 0.5, 'apply': 3, 'remove': 2, 'clear': 0.2, 'slice': 2, 'index': 0.7, 'clip': 0.7,
-          'iter': 0.2, 'crossed_stops': 0.5, 'cut_tail': 0.4, 'qmq': 0.6, 'parse_twice': 0.2, 'add': 1.5, 'iadd': 1.5, 'join': 0.7, 'split_rejoin': 0.7, 'copy': 0.8, 'render': 0.5, 'iter_join': 0.3}
+          'iter': 0.2, 'crossed_stops': 0.5, 'cut_tail': 0.4, 'astr_of_source': 0.3, 'qmq': 0.6, 'parse_twice': 0.2, 'add': 1.5, 'iadd': 1.5, 'join': 0.7, 'split_rejoin': 0.7, 'copy': 0.8, 'render': 0.5, 'iter_join': 0.3}
 
 
 def weights(**over):
@@ -1247,7 +1288,7 @@ def weights(**over):
 
 
 PROFILES = {
-    'C01': weights(render=0, render8=1.5, apply=4, remove=2, slice=1.5, add=1.5, iadd=1.5, copy=0.3, many_end=0.8, clear_over=0.8),
+    'C01': weights(render=0, render8=1.5, apply=4, remove=2, slice=1.5, add=1.5, iadd=1.5, copy=0.3, many_end=0.8, clear_over=0.8, astr_of_source=1.0),
     'C15': weights(render=0, render8=3, iadd=3.5, add=1, apply=3, remove=1.5, new=2, slice=1, clip=0.7, replace=0.7, pad=0.5,
                    simplify=0.4, copy=0.3, many_end=0.6, clear_over=0.6),
     'C03': weights(render=0, reparse=1.2, simplify=1.2, apply=4, remove=2, parse_twice=0.8, many_end=1.0, clear_over=0.8),
@@ -1259,7 +1300,7 @@ PROFILES = {
     'C16': weights(matching=6, apply_match=1.0, apply=3, remove=1, slice=0.5, render=0.2, case=1.5, copy=0.3, match_case_match=1.5, matching_adjacent=1.5),
     'C17': weights(find_settings=5, settings_at=2.5, apply=4, remove=2, slice=0.5, add=0.7, iadd=0.7, pad=1.2, assign_str=0.6, grow_then_slice=1.5, find_overlap=1.5, shrink_then_find=1.5,
                    strip=0.5, new_from=0.8),
-    'C04': weights(slice=5, index=2, clip=2, iter=1.5, iter_join=0.6, apply=3, remove=1.5, pad=0.8, assign_str=0.6, strip=0.4,
+    'C04': weights(iter_twice=1.2, slice=5, index=2, clip=2, iter=1.5, iter_join=0.6, apply=3, remove=1.5, pad=0.8, assign_str=0.6, strip=0.4,
                    same_form_nested=1.2, grow_then_slice=1.2),
     'C05': weights(add=4, iadd=4, join=2, split_rejoin=2, slice=2, iter_join=1.0, shared_objects=0.8, seam_stop_order=1.0, seam_order=1.2, same_form_nested=1.0, join_plain_escapes=1.0),
     'C06': weights(apply=6, remove=1.5, slice=1, restart_leftover=1.5, bottom_at_begin=1.5, same_form_nested=1.5, apply_match=0.7),
